@@ -12,6 +12,8 @@ ASSUME = [
     "through TorConfig.create_socks_endpoint the requested value is also a configured line in full, a loopback host:port listener's bare "
     "port, an absent port with option words, and every such request is also made twice in a row; the internal helper "
     "_create_socks_endpoint (which the library itself only calls without a requested value) is driven with first-word requests only",
+    "where a configured port serves a request made through Tor._default_socks_endpoint / _create_socks_endpoint, the same request is also "
+    "made twice at the same time (the second before Tor has answered anything of the first): both get that port, nothing is changed",
     "chain vectors: on one TorConfig a port is requested and added, back to back with one that Tor refuses, Tor announcing what it "
     "accepted before its 250 OK; the request under test is a third, new port",
     "the well-known-port fallback is also exercised on an endpoint object that has connected before under other conditions (prior)",
@@ -60,6 +62,9 @@ def run(pid, tier, seed):
         reqs = [None] + usable[:2] + ["9999", "unix:/tmp/new.sock", "127.0.0.1:9998"]
         for rq in reqs:
             recs.append(sp.choose(ex, rq, "tor"))
+            if recs[-1]["obs"]["nset"] == 0 and not recs[-1]["obs"]["err"]:
+                # a configured port serves this request: the same request made twice at the same time
+                recs.append(sp.choose(ex, rq, "tor", overlap=True))
             if rq is None and ex["lines"]:
                 recs.append(sp.choose(ex, rq, "tor_cfg"))
             if rq is not None and ex["lines"]:
@@ -132,7 +137,7 @@ def replay(pid, path):
         elif v.get("midboot"):
             rec = sp.midboot(dict(lines=v["base"]))
         else:
-            rec = sp.choose(dict(lines=lines, default="9050"), v["requested"] or None, v["path"], twice=v.get("twice", False))
+            rec = sp.choose(dict(lines=lines, default="9050"), v["requested"] or None, v["path"], twice=v.get("twice", False), overlap=v.get("overlap", False))
     else:
         rec = sp.fallback(v["outcomes"], v.get("prior") or None)
     res, r = tlc.validate_traces("SocksPortTrace", "SocksPortTrace.cfg", [dict(rec, steps=[1])])
